@@ -118,6 +118,91 @@ theorem declMarker_sem (S : LeafSpec ev G) (hC : CompactAgree E ev G) (D : Decl)
       have s2 := stepPlatform_sem S hC D.platform bPl m1 m s1.1 hPl h
       exact ⟨s2.1, by rw [s2.2, s1.2, s0.2]⟩
 
+/-! ### the same against poetry's own evaluation, the compaction agreement discharged per text -/
+
+/-- the declared `markers` text is in C06's proved domain on `E` -/
+def MarkersAgree (E : Env) (o : Option String) : Prop := truthy o = true → TextAgree E (o.getD "")
+
+/-- the `sys_platform` clause printed for the declared platform is in C06's proved domain on `E` -/
+def PlatformAgree (E : Env) (o : Option String) : Prop :=
+  truthy o = true → ∀ gc txt, Generic.parseConstraint (o.getD "") = .ok gc →
+    (if gc.isAny then pure "" else nestedGC "sys_platform" gc) = .ok txt → TextAgree E txt
+
+theorem declMarker_sem_validate (S : LeafSpec (leafEval E) (CompLeaf E)) (D : Decl) (X Y Z : Nat)
+    (hE : EnvPy E X Y Z) (bM bPy bPl : Bool) (m : M) (hM : declRef E D.markers = some bM)
+    (hMa : MarkersAgree E D.markers) (hPy : PyDecl D.python X Y Z bPy)
+    (hPl : PlatformDecl E D.platform bPl) (hPa : PlatformAgree E D.platform) (h : declMarker D = .ok m) :
+    M.Good (CompLeaf E) m ∧ M.sem (leafEval E) m = (bM && bPy && bPl) := by
+  unfold declMarker at h
+  cases h0 : stepMarkers D.markers with
+  | error e => simp [h0, bind, Except.bind] at h
+  | ok m0 =>
+    simp only [h0, bind, Except.bind] at h
+    cases h1 : stepPython m0 D.python with
+    | error e => simp [h1] at h
+    | ok m1 =>
+      simp only [h1] at h
+      -- markers
+      have s0 : M.Good (CompLeaf E) m0 ∧ M.sem (leafEval E) m0 = bM := by
+        unfold stepMarkers at h0
+        unfold declRef at hM
+        by_cases ht : truthy D.markers = true
+        · simp only [ht, if_true] at h0 hM
+          exact parseMarker_sem_agree E S _ bM m0 (hMa ht) hM h0
+        · simp only [ht, Bool.false_eq_true, if_false, pure, Except.pure] at h0 hM
+          cases h0; cases hM
+          simp [M.Good, M.sem]
+      -- python
+      have s1 : M.Good (CompLeaf E) m1 ∧ M.sem (leafEval E) m1 = (M.sem (leafEval E) m0 && bPy) := by
+        unfold stepPython at h1
+        unfold PyDecl at hPy
+        by_cases ht : truthy D.python = true
+        · simp only [ht, if_true] at h1 hPy
+          obtain ⟨c, hc, hdom, hb⟩ := hPy
+          simp only [hc, bind, Except.bind] at h1
+          cases htx : createNestedMarker "python_version" c with
+          | error e => simp [htx] at h1
+          | ok txt =>
+            simp only [htx] at h1
+            cases hpm : parseMarker txt with
+            | error e => simp [hpm] at h1
+            | ok pm =>
+              simp only [hpm] at h1
+              have hp := createNested_poetry E S c hdom X Y Z hE txt pm htx hpm
+              have := mIntersect_sound S s0.1 hp.1 h1
+              exact ⟨this.1, by rw [this.2, hp.2.1, hb]⟩
+        · simp only [ht, Bool.false_eq_true, if_false, pure, Except.pure] at h1 hPy
+          cases h1
+          subst hPy
+          simp [s0.1]
+      -- platform
+      have s2 : M.Good (CompLeaf E) m ∧ M.sem (leafEval E) m = (M.sem (leafEval E) m1 && bPl) := by
+        unfold stepPlatform at h
+        unfold PlatformDecl at hPl
+        by_cases ht : truthy D.platform = true
+        · simp only [ht, if_true] at h hPl
+          cases hg : Generic.parseConstraint (D.platform.getD "") with
+          | error e => simp [hg, bind, Except.bind] at h
+          | ok gc =>
+            simp only [hg, bind, Except.bind] at h
+            cases htx : (if gc.isAny then (pure "" : PyM String) else nestedGC "sys_platform" gc) with
+            | error e => simp [htx] at h
+            | ok txt =>
+              simp only [htx] at h
+              cases hpm : parseMarker txt with
+              | error e => simp [hpm] at h
+              | ok pm =>
+                simp only [hpm] at h
+                have hr := hPl gc txt hg htx
+                have hp := parseMarker_sem_agree E S txt bPl pm (hPa ht gc txt hg htx) hr hpm
+                have := mIntersect_sound S s1.1 hp.1 h
+                exact ⟨this.1, by rw [this.2, hp.2]⟩
+        · simp only [ht, Bool.false_eq_true, if_false, pure, Except.pure] at h hPl
+          cases h
+          subst hPl
+          simp [s1.1]
+      exact ⟨s2.1, by rw [s2.2, s1.2, s0.2]⟩
+
 /-! ### the `marker` setter and the dependency object -/
 
 theorem setMarker_marker (d d' : Dep) (m : M) (h : d.setMarker m = .ok d') : d'.marker = m := by
